@@ -174,7 +174,7 @@ TEXT = {
     "C12": _t("spec/ResSub.tla (cached content against an ordered service channel: initial get, state / custom events, silent mutations revealed by resets, re-fetch) is model-checked exhaustively: no gap, subscribers told what the cache holds, convergence, one re-fetch at a time, every reset eventually re-fetched. Pattern matching and both diff routines are checked exhaustively over bounded domains against definitional TLA+ modules (spec/fn/ResPattern.tla, ResDiff.tla); the protocol part (re-fetch of exactly the matching cached resources, convergence after silent mutations + reset) is checked on replayed schedules by the observer.",
               "TLC exhaustive on ResSub.tla + exhaustive function tables checked by TLC against spec/fn + TLC-generated schedules with resets validated by the observer spec",
               note="Tables: patterns <= 4 (thorough 5) symbols over {a,b,.,*,>,?} plus invalid-character variants x all valid names <= 5 over {a,b,.}; collections <= 3 (4) long over three value tokens; models over 2 (3) keys x 5 value options. " + GW_NOTE),
-    "C15": _t("Any panic of the gateway process or failure to reach quiescence in any replayed schedule of any family is a violation; the crashing schedule is the replay. The malformed family injects 33 event shapes and 29 response shapes, including the boundary indexes of the collection as cached (remove at its length, add one past it).", TECH),
+    "C15": _t("Any panic of the gateway process or failure to reach quiescence in any replayed schedule of any family is a violation; the crashing schedule is the replay. The malformed family injects 33 event shapes and 29 response shapes, including the boundary indexes of the collection as cached (remove at its length, add one past it). Table values: every value object over 8 x 5 x 6 x 5 member options (rid / soft / data / action present, null, of the wrong JSON type, empty, invalid, ambiguous combinations, extra members) plus primitives and arrays, in the four places a service can put a value, through the real decoders; TLC checks the kind of value or the rejection against spec/fn/ResValue.tla.", TECH),
 }
 NOT_YET = {}
 
@@ -493,6 +493,9 @@ def lifecycle_model(ctx):
 PROPS["C20"] = dict(run=tables.combine(lifecycle_model, gateway_run(["life"], ["stop", "stopped", "sockClosed", "openRefused"], also=("C01",))))
 TEXT["C20"] = _t("spec/Lifecycle.tla (Start / Stop critical sections with three concurrent Stop callers incl. the MQ closed handler) is model-checked exhaustively: one cause per run on the stop channel and it is the winner's, no socket open and nothing accepted after a run ended, a winning Stop terminates, and - with a messaging client whose Close hands over what it still holds in its receive buffer - nothing is ever handed to the cache's closed work channel (the swapped order is a negative check). On the real gateway: Stop and loss of the messaging connection are injected at arbitrary steps of TLC-generated schedules (with requests, loads and evictions outstanding, gates held, and optionally an event and / or a response delivered by the harness messaging client during Close, as the NATS adapter does); the observer requires every socket closed, the cause on the stop channel, completion within the fake-time bounds, refusal while stopped, a working restart, and no panic.",
                  "TLC exhaustive on Lifecycle.tla + TLC-generated stop / connection-loss schedules replayed on the real gateway, traces validated by the observer spec")
+
+# C15: which value objects are rejected ("ambiguous or unknown value objects") is a function table of its own
+PROPS["C15"] = dict(run=tables.combine(PROPS["C15"]["run"], tables.tables_run(["values"], "value decoding")))
 
 PROPS["C14"] = dict(run=tables.combine(tables.tables_run(["subjects"], "subject hygiene"),
                                        gateway_run(["access", "gc"], ["mreq", "msub"])))
